@@ -31,7 +31,7 @@ CHECKS = {
          "Held on the objects and submissions explored: fx-core's three checkpoint digests (Ethereum-style and Tron) are compared with an independently written abi.encode over random and boundary-valued objects; on the real app every stored confirmation is re-verified (signer, bridger, object, uniqueness) after each honest, malformed, malleated, over-long, transplanted, misnamed (other token contract) or duplicate submission (stored signatures are exactly 65 bytes); the store migration on pre-upgrade parameters keeps the bridge id and the digests.",
          "The deployed contract cannot be executed here; it is represented by harness/abienc written from FxBridgeLogic.sol. ECDSA recovery is trusted.", "4 C12"),
  "C13": ("exploration", "store/index cross-check, stake-movement accounting and slash-justification monitor over generated oracle life-cycle histories with real unbonding",
-         "Held on the histories observed: after every operation the raw oracle records and both lookup indexes are cross-checked; an approved newcomer tries to bond with the bridger or external address of a registered (preferably offline) oracle; bond / add-delegate / re-delegate / removal / unbond are measured on bank and staking state; each oracle taken offline in an end block must have an aged unconfirmed object created after it joined; the remove -> mature (21 days virtual time, real staking end blocker) -> withdraw cycle is completed and repeated, including governance re-admission; the join height is modelled independently of the stored one; the recorded stake of an online oracle is held for it and lies inside the configured bounds (add-delegates land on the maximum, one unit past it and well past it); re-admission and add-delegate also happen in the very block in which the removed stake matures; governance switches the penalty fraction off and on, and an online oracle carries no penalty count.",
+         "Held on the histories observed: after every operation the raw oracle records and both lookup indexes are cross-checked; an approved newcomer tries to bond with the bridger or external address of a registered (preferably offline) oracle; bond / add-delegate / re-delegate / removal / unbond are measured on bank and staking state; each oracle taken offline in an end block must have an aged unconfirmed object created after it joined; the remove -> mature (21 days virtual time, real staking end blocker) -> withdraw cycle is completed and repeated, including governance re-admission; the join height is modelled independently of the stored one; the recorded stake of an online oracle is held for it and lies inside the configured bounds (add-delegates land on the maximum, one unit past it and well past it); re-admission and add-delegate also happen in the very block in which the removed stake matures; governance switches the penalty fraction off, to its legal maximum of one, and back, and an online oracle carries no penalty count; with the maximal penalty and a slashed validator the penalty is capped at the stake that came back; unbonds leave the FX escrowed in the chain's module account untouched; every 16 steps the module's genesis is exported, wiped and imported on a branch and the oracle records and both indexes come back byte for byte.",
          "Zero inflation and zero fees in the harness genesis make 'stake minus penalties' an exact amount.", "4 C13"),
  "C04": ("exploration", "per-operation balance-effect monitor + store-side conservation equation + cumulative withdrawability probe over generated bridge histories with an external-chain model",
          "Held on the histories observed (apart from the listed known findings): after every operation the holdings of every tracked account in every token group are compared with what the operation explicitly moves; users + in-flight = initial + deposits - externally executed withdrawals is evaluated from the raw stores; at the end all holders withdraw their whole balances on a branch; the total supply of the native coin stays constant through every bridge operation; some histories flood the pool with a hundred transfers, some leave a deposit unexecuted while more than a hundred later events are observed and then execute it; deposits with an IBC target are executed against less, exactly and more voucher liquidity than they need (loop-back fixture).",
@@ -40,7 +40,7 @@ CHECKS = {
          "Held on the histories observed (apart from the listed known finding): ids sequential and never reused, every transfer in exactly one place, content byte-equal to the request, only the location changes the operation may cause, refunds exact, third-party and post-batch cancels rejected, executed never refunded; who pays what on send / fee increase (also by a third party) / cancel; a batch returns to the pool only when a later batch of the same token was executed or its timeout was observed; a bridge call removed by the timeout path pays exactly its tokens to its refund address; cancels also arrive through a stranger's contract called by the owner; fees are also offered in another token's denomination.",
          "Same workload and model as C04.", "4 C05"),
  "C06": ("exploration", "release monitor against the last observed external height and the external model's execution record, with heights swept around every live timeout",
-         "Held on the histories observed: every batch returned to the pool without execution and every bridge call refunded by timeout is checked against the last observed external height (observed >= timeout) and against what the external model executed (no double spend); batches are born with a timeout above the observed height; timeouts are made non-monotone (fast fxcore clock, second batch of a token) and observed results are sometimes only parked and executed later; one case starts from a genesis state that installs a bridge token while no external event has been observed (nothing may be batched); every fourth history runs on a mature fxcore (height 5,000,000) bridging a young external chain; a quarter of the batch executions are reported by a split vote while the same oracles already report the next event (events must still be observed in order).",
+         "Held on the histories observed: every batch returned to the pool without execution and every bridge call refunded by timeout is checked against the last observed external height (observed >= timeout) and against what the external model executed (no double spend); batches are born with a timeout above the observed height; timeouts are made non-monotone (fast fxcore clock, second batch of a token) and observed results are sometimes only parked and executed later, out of nonce order, and the execution of one call's result may remove that call only; one case starts from a genesis state that installs a bridge token while no external event has been observed (nothing may be batched); every fourth history runs on a mature fxcore (height 5,000,000) bridging a young external chain; a quarter of the batch executions are reported by a split vote while the same oracles already report the next event (events must still be observed in order).",
          "The stricter comparison the code uses for batches (timeout < observed) is accepted; only observed < timeout is flagged.", "4 C06"),
  "C08": ("exploration", "book-balance invariant monitor after every transaction over conversion histories and generated mixed token/precompile contract programs, plus targeted per-method probes",
          "Held on the histories observed (apart from the listed known findings): escrow vs ERC-20 supply, module-held ERC-20 vs coin supply over all denominations, sum of balances vs supply and the pair/denom/contract/alias indexes vs bank metadata are evaluated after every conversion, governance update and generated contract program; aliases are added and removed (also from the middle of the list); each conversion's effect on every user is exact, also when the receiver is a module account or the token contract; probes with an ERC-20 that returns false instead of reverting (converted, and sent out through the crossChain precompile), with a symbol that clashes with an alias by case, with a denomination that starts with a chain name, with a module-owned coin whose denomination differs from the native one only by letter case, and with an alias given to the native coin (locking FX for alias coins interleaved with wrapping and unwrapping WFX).",
@@ -64,14 +64,14 @@ CHECKS = {
          "Held on the boundaries and failure points enumerated: observed events whose handler fails, inbound bridge calls carrying 1-3 tokens whose contract reverts late / loops to the gas cap / hits INVALID or whose k-th token is unconvertible (conversion switched off, or the token's contract destroyed) (refund address equal to or different from the receiver; with and without the send-then-call memo; receiver a contract, or a plain account that already owns coins and ERC-20 units of the tokens), passed n-message proposals whose k-th message errors / reverts after writes / runs out of gas / panics (alone, or followed by another passing proposal in the same block), and IBC packets whose conversion or memo call fails; the state afterwards equals the twin that failed at entry apart from the designated record.",
          "Twins are copy-on-write branches with different code at the same address; IBC packets go through the real IBC core over a loop-back channel.", "4 C18"),
  "C19": ("exploration", "loop-back IBC fixture (real IBC core + fx middleware on the real app): balance/ERC-20/supply snapshot oracle per packet, memo-caller monitor, refund-exactly-once and relation-record monitor under replays and interleavings over two channels",
-         "Held on the packets and endings observed: inbound packets over five denom kinds x receiver kinds x amounts x memo kinds (hostile packet data committed through the channel keeper) credit exactly the amount as ERC-20 (native for FX) to the hex receiver (who may already own bank coins of the voucher, which stay untouched) on a success acknowledgement and nothing on an error acknowledgement; a coin merely spelled FX on the sending chain is a foreign voucher; memo calls run as hash(port/channel, sender); outbound transfers from the crossChain precompile end by ack-success / ack-error / timeout in random interleavings over two channels, each replayed: refund exact, in the original form, once; relation record gone; a relay that arrives while governance has switched the token's conversion off or removed the voucher alias, is refused without effect (or refunds in ERC-20 form) and succeeds after governance has undone it.",
+         "Held on the packets and endings observed: inbound packets over five denom kinds x receiver kinds x amounts x memo kinds (hostile packet data committed through the channel keeper) credit exactly the amount as ERC-20 (native for FX) to the hex receiver (who may already own bank coins of the voucher, which stay untouched) on a success acknowledgement and nothing on an error acknowledgement; a coin merely spelled FX on the sending chain is a foreign voucher; memo calls run as hash(port/channel, sender), and the same sender over the two channels of a pair runs as two different callers, repeatably; outbound transfers from the crossChain precompile end by ack-success / ack-error / timeout in random interleavings over two channels, each replayed: refund exact, in the original form, once; relation record gone; a relay that arrives while governance has switched the token's conversion off or removed the voucher alias, is refused without effect (or refunds in ERC-20 form) and succeeds after governance has undone it.",
          "ERC-20-originated outbound transfers exist only under a labelled fixture (see assumptions in the evidence); the remote chain is the other end of a loop-back channel.", "4 C19"),
  "C20": ("exploration", "panic monitors (recover + worker-process death) over wire-level mutants of every registered message type decoded by the node's tx decoder, precompile call-data fuzzing through the real EVM, parser fuzzing; CheckTx verdicts vs an independent statement of the minimum-fee rule on apps with different exemption settings",
          "Held on the inputs explored (apart from the listed known finding in a dependency): every message type of the interface registry is generated reflectively, mutated at wire level (field omission at two levels, duplication, truncation, bit flips), decoded as the node does and given to ValidateBasic, signer resolution and the real CheckTx; every precompile method is called with well-formed, truncated, random and hostile-offset call data as transaction and eth_call; address/target parsers on random and near-valid strings; signed transactions around gas = n*allowance and fee = ceil(price*gas), also with fees in a coin the node quotes no price for, on apps with six exemption lists, four allowances and four node prices.",
          "A panic recovered by baseapp still counts. A worker process that dies is reported as a violation (CrashIsViolation).", "4 C20"),
- "C17": ("exploration", "replay of recorded workload histories in separate processes under different GOMAXPROCS / GOGC / TZ / LANG settings; per-operation and per-block digest traces (application hash, results, events) compared line by line, divergences pinpointed to the component",
-         "No divergence in R replays (quick 3, thorough 6) of the corpus apart from the listed known finding: complete cases of eleven other workloads (for IBC an outbound history first: its packet commitments carry a timeout computed from the block time, which lies in the past at replay) (votes, pool, aging end blocks, conversions, precompile call trees, staking precompile, oracle life cycles, migration, gov, tolerated failures, IBC) and oracle-churn histories dropping several bonded oracles per governance update, sending two-token bridge calls, letting five bridge calls of one block time out together, and ending proposals that fail at execution, and power-threshold histories in which twenty oracles add stake so that the summed change of the normalised powers equals the governance-set 20/40/60/80 % threshold exactly (amounts found by search against a model of the normalisation; the evidence counts the rounds that landed exactly); gas per operation is part of the trace; odd replicas dry-run every operation on a discarded copy first.",
-         "Order dependence on a k-element map shows up with probability 1-1/k! per extra replica; a run under the race detector is not part of the registered commands (see DESIGN.md).", "4 C17"),
+ "C17": ("exploration", "replay of recorded workload histories in separate processes under different GOMAXPROCS / GOGC / TZ / LANG settings; per-operation and per-block digest traces (application hash, results, events) compared line by line, divergences pinpointed to the component; plus one replica of every history in a binary built with the Go race detector (go build -race), whose reports are attributed to their first fx-core frame",
+         "No divergence in R replays (quick 3, thorough 6) of the corpus apart from the listed known finding: complete cases of eleven other workloads (for IBC an outbound history first: its packet commitments carry a timeout computed from the block time, which lies in the past at replay) (votes, pool, aging end blocks, conversions, precompile call trees, staking precompile, oracle life cycles, migration, gov, tolerated failures, IBC) and oracle-churn histories dropping several bonded oracles per governance update, sending two-token bridge calls, letting five bridge calls of one block time out together, and ending proposals that fail at execution, and power-threshold histories in which twenty oracles add stake so that the summed change of the normalised powers equals the governance-set 20/40/60/80 % threshold exactly (amounts found by search against a model of the normalisation; the evidence counts the rounds that landed exactly); gas per operation is part of the trace; odd replicas dry-run every operation on a discarded copy first; the race-detector replica of every history ran without a report in a path through fx-core.",
+         "Order dependence on a k-element map shows up with probability 1-1/k! per extra replica; the race-detector replica reports unsynchronised sharing on the paths the corpus executes, whatever the schedule was; reports without any fx-core frame (a dependency's own goroutines) are counted, not judged.", "4 C17"),
 }
 NOT_YET = {}
 def load_props():
